@@ -13,6 +13,16 @@ Fixpoint line_of (t : list N) : list N :=
   | c :: r => if c =? LF then [] else c :: line_of r
   end.
 
+(* the line's text as LSPToByte measures it: up to the LF, without the CR that directly precedes that
+   LF (strings.TrimSuffix(line, "\r") on every line but the last, /repo CRLF repair) *)
+Fixpoint line_text (t : list N) : list N :=
+  match t with
+  | [] => []
+  | c :: r => if c =? LF then []
+              else if (c =? CR) && (match r with c' :: _ => c' =? LF | [] => false end) then []
+              else c :: line_text r
+  end.
+
 (* the text starting at line l (0-based); None when the text has fewer lines:
    "line >= len(m.lines)" *)
 Fixpoint skip_lines (t : list N) (l : N) : option (list N) :=
@@ -43,7 +53,7 @@ Definition lsp_to_byte (t : list N) (l c : N) : N :=
   match skip_lines t l with
   | None => blen t
   | Some rest =>
-      let ln := line_of rest in
+      let ln := line_text rest in
       (blen t - blen rest) + u16_to_byte ln 0 0 c
   end.
 
